@@ -109,17 +109,21 @@ func ExhaustiveCount(k, maxLen int) int {
 }
 
 type sampler struct {
-	t      *rapid.T
-	re2    bool
-	caps   map[int][]rune
-	alpha  []rune
-	budget int
-	maxOut int // emitted text is cut off here: nested counted loops around backreferences grow exponentially
+	t        *rapid.T
+	re2      bool
+	caps     map[int][]rune
+	alpha    []rune
+	budget   int
+	caseSafe bool
+	maxOut   int // emitted text is cut off here: nested counted loops around backreferences grow exponentially
 }
 
 func (s *sampler) flip(r rune, ic bool) rune {
 	if ic && rapid.IntRange(0, 2).Draw(s.t, "flip") == 0 {
 		if f := unicode.SimpleFold(r); f != r {
+			if s.caseSafe && unicode.SimpleFold(f) != r {
+				return r // s -> LONG S, k -> KELVIN SIGN: not a plain pair, outside the case-safe domain
+			}
 			return f
 		}
 	}
@@ -199,7 +203,7 @@ func (s *sampler) emit(n *ast.Node, out []rune) []rune {
 // Directed draws a string the pattern is likely to match (a random walk through the AST),
 // mutated and embedded in noise. alpha is the pattern-derived alphabet.
 func Directed(t *rapid.T, root *ast.Node, re2 bool, alpha []rune, caseSafe bool, maxLen int) []rune {
-	s := &sampler{t: t, re2: re2, caps: map[int][]rune{}, alpha: alpha, budget: 400, maxOut: 4*maxLen + 64}
+	s := &sampler{t: t, re2: re2, caps: map[int][]rune{}, alpha: alpha, budget: 400, maxOut: 4*maxLen + 64, caseSafe: caseSafe}
 	core := s.emit(root, nil)
 	nz := noise
 	if caseSafe {
